@@ -275,7 +275,9 @@ class Scan(ConfocalImage, VideoExport, FrameIndex):
         ts_max = self._timestamps(reduce=np.max)
         delta_ts = int(1e9 / self.infowave.sample_rate)  # We want the sample beyond the end
         if ts_min.ndim == 2:
-            return [(np.min(ts_min), np.max(ts_max) + delta_ts)]
+            # The first pixel marks the start; an unfinished frame is padded with zero timestamps,
+            # which must not be mistaken for the earliest sample
+            return [(ts_min[0, 0], np.max(ts_max) + delta_ts)]
         else:
             if include_dead_time:
                 frame_time = ts_min[1, 0, 0] - ts_min[0, 0, 0]
